@@ -43,12 +43,12 @@ def _attr(name: str) -> Poly:
     return Poly.atom(("attr", SELF.key(), name))
 
 
-def r1(ctx) -> None:
+def r1(ctx, rule: str = "C11-R1") -> None:
     repo = ctx.repo
     g = ctx.fn(P, "Parameter.get_value_and_bounds_for_optimization")
     fl = lib.flow(g, repo)
     rets = lib.nodes(g, ast.Return)
-    ctx.sites("C11-R1", "returns", len(rets), 1)
+    ctx.sites(rule, "returns", len(rets), 1)
     for r in rets:
         ok = isinstance(r.value, ast.Tuple) and len(r.value.elts) == 3
         terms = [fl.term(e, r) for e in r.value.elts] if ok else []
@@ -65,12 +65,12 @@ def r1(ctx) -> None:
             # phi(name, {raw, log(raw)}) : both definitions reach, the log one under the flag
             if not (a and a[0] == "phi" and set(a[2]) == {raw.key(), logd.key()}):
                 good = False
-        ctx.ob("C11-R1", "get_value_and_bounds_for_optimization/returns-log-or-raw", good, g, r,
+        ctx.ob(rule, "get_value_and_bounds_for_optimization/returns-log-or-raw", good, g, r,
                "each of value, minimum, maximum is returned either raw or as _log_value(of itself), in this order", trace)
     # the log definitions are all under `if self.non_negative`
     flag = _attr("non_negative")
     logs = [c for c in lib.calls(g) if norm(c.func) == "_log_value"]
-    ctx.sites("C11-R1", "_log_value applications", len(logs), 3)
+    ctx.sites(rule, "_log_value applications", len(logs), 3)
 
     def under_flag(test, pol, at):
         return pol is True and fl.term(test, at if isinstance(at, ast.stmt) else lib.stmt_of(at)) == flag
@@ -79,15 +79,15 @@ def r1(ctx) -> None:
     for c in logs:
         gd = lib.guarded_by(fl, c, under_flag)
         guards.add(id(gd))
-        ctx.ob("C11-R1", f"get_value_and_bounds_for_optimization/log-under-flag:{norm(c.args[0])}", gd is not None, g, lib.stmt_of(c),
+        ctx.ob(rule, f"get_value_and_bounds_for_optimization/log-under-flag:{norm(c.args[0])}", gd is not None, g, lib.stmt_of(c),
                "the logarithm is applied exactly when the parameter is non_negative")
-    ctx.ob("C11-R1", "get_value_and_bounds_for_optimization/one-guard", len(guards) == 1, g, g.node,
+    ctx.ob(rule, "get_value_and_bounds_for_optimization/one-guard", len(guards) == 1, g, g.node,
            "value and both bounds are transformed under one and the same test (they are always in the same space)",
            construct="if self.non_negative: value, minimum, maximum = log...")
     s = ctx.fn(P, "Parameter.set_value_from_optimization")
     fls = lib.flow(s, repo)
     st = lib.attr_stores(s, "self.value")
-    ctx.sites("C11-R1", "value store in set_value_from_optimization", len(st), 1)
+    ctx.sites(rule, "value store in set_value_from_optimization", len(st), 1)
     p = s.params()[1]
     x = Poly.atom(("name", p))
     want = Poly.atom(("ite", flag.key(), Poly.atom(("exp", x.key())).key(), x.key()))
@@ -103,7 +103,7 @@ def r1(ctx) -> None:
             defs = fls.reaching(stmt.value.id, stmt)
             exp_defs = [d for d in defs if d.kind == "assign" and fls.term(d.value, d.node) == Poly.atom(("exp", x.key()))]
             ok = alt_ok and bool(exp_defs) and all(lib.guarded_by(fls, d.stmt, lambda te, po, at: po is True and fls.term(te, at) == flag) for d in exp_defs)
-        ctx.ob("C11-R1", "set_value_from_optimization/exp-iff-non-negative", ok, s, stmt,
+        ctx.ob(rule, "set_value_from_optimization/exp-iff-non-negative", ok, s, stmt,
                "the stored value is exp(x) exactly when the parameter is non_negative and x otherwise (inverse of the export)",
                [f"stored term: {got!r}"])
     lv = ctx.fn(P, "_log_value")
@@ -122,7 +122,7 @@ def r1(ctx) -> None:
             small = True
             for sub in arg.all_atoms():
                 pass
-            ctx.ob("C11-R1", "_log_value/log-of-value", ok, lv, r, "the transformed value is log(value) (up to the documented 1e-10 nudge at 1)",
+            ctx.ob(rule, "_log_value/log-of-value", ok, lv, r, "the transformed value is log(value) (up to the documented 1e-10 nudge at 1)",
                    [f"argument: {arg!r}"])
         else:
             raw = t == Poly.atom(("name", vp))
@@ -131,9 +131,9 @@ def r1(ctx) -> None:
                 inner, pos = lib.strip_not(test)
                 return "isfinite" in norm(inner) and ((pol if pos else not pol) is False)
 
-            ctx.ob("C11-R1", "_log_value/pass-through-only-non-finite", raw and lib.guarded_by(fll, r, nonfinite) is not None, lv, r,
+            ctx.ob(rule, "_log_value/pass-through-only-non-finite", raw and lib.guarded_by(fll, r, nonfinite) is not None, lv, r,
                    "the only untransformed return is the pass-through of non-finite values (infinite bounds)")
-    ctx.ob("C11-R1", "_log_value/has-log", n_log >= 1, lv, lv.node, "_log_value returns a logarithm", construct="return np.log(value)")
+    ctx.ob(rule, "_log_value/has-log", n_log >= 1, lv, lv.node, "_log_value returns a logarithm", construct="return np.log(value)")
 
 
 def r2(ctx) -> None:
@@ -360,6 +360,34 @@ def history_pair(ctx, rule: str = "C11-R4") -> None:
         t = fla.term(s_.value, s_)
         ctx.ob(rule, "ParameterHistory.append/labels-of-same-export", from_export(t, 0), ap, s_,
                "the history labels are position 0 of the same export (plus the leading 'iteration')", [f"label term: {t!r}"])
+    # records are matched to labels by position: the label check is a comparison of sequences, and a copy keeps the order
+    cmp_ok = False
+    for n_ in lib.nodes(ap, ast.If):
+        if n_.body and isinstance(n_.body[-1], ast.Raise):
+            t_ = n_.test
+            if isinstance(t_, ast.Compare) and len(t_.ops) == 1 and isinstance(t_.ops[0], ast.NotEq) and \
+                    {norm(t_.left), norm(t_.comparators[0])} == {"parameter_labels", "self.parameter_labels"}:
+                cmp_ok = True
+            if "set(" in norm(t_) or "sorted(" in norm(t_) or "Counter(" in norm(t_):
+                cmp_ok = False
+                break
+    ctx.ob(rule, "ParameterHistory.append/labels-compared-as-sequence", cmp_ok, ap, ap.node,
+           "a record whose labels are the same *set* in another order would be stored under the wrong labels: the check is `list != list`",
+           construct="if parameter_labels != self.parameter_labels: raise")
+    cp = ctx.fn(PS, "Parameters.copy")
+    flc = lib.flow(cp, repo)
+    rets_ = lib.nodes(cp, ast.Return)
+    okc = False
+    for r_ in rets_:
+        v_ = flc.inline(r_.value, r_) if r_.value is not None else None
+        if isinstance(v_, ast.Call) and v_.args and isinstance(v_.args[0], ast.DictComp):
+            g_ = v_.args[0].generators[0]
+            okc = norm(g_.iter) == "self._parameters.items()" and not g_.ifs and len(v_.args[0].generators) == 1
+    bad_ = [c for c in lib.calls(cp, nested=True) if (isinstance(c.func, ast.Name) and c.func.id in ("sorted", "reversed", "set")) or
+            (isinstance(c.func, ast.Attribute) and c.func.attr in ("sort", "reverse"))]
+    ctx.ob(rule, "Parameters.copy/keeps-declaration-order", okc and not bad_, cp, bad_[0] if bad_ else (rets_[0] if rets_ else cp.node),
+           "the optimiser's working copy lists the parameters in the order of the original: labels, values, bounds and history columns are "
+           "matched by position with arrays exported from the original", construct=lib.short(rets_[0], 110) if rets_ else "def copy")
     sh = ctx.fn(PS, "Parameters.set_from_history")
     cs = [c for c in lib.method_calls(sh, "set_from_label_and_value_arrays")]
     ctx.ob(rule, "set_from_history/applies-record-through-setter", len(cs) == 1, sh, cs[0] if cs else sh.node,
